@@ -307,6 +307,49 @@ def run_dynamic_orders(_):
     return part.result()
 
 
+def run_process_queries(_):
+    """queries that call template-local functions through a process (P1.f()) or an element of a process set (T(1).f())"""
+    part = engine.Part()
+    w = engine.worker("fast")
+    decl = ("int lv; int la[2]; int lw() { lv = 1; return 1; } int lg() { v = 2; return 1; } int linc() { return lv++; } int larr() { la[1] = 1; return 1; }\n"
+            "int lchain() { return lw(); } void wr(int &r) { r = 1; } int lref() { wr(lv); return 1; } int lstmt() { if (k == 1) { for (i : int[0,1]) { lv += i; } } return 1; }\n"
+            "int lr() { return lv + la[0] + v; } int lrchain() { return lr(); } int lloc() { int t = 0; wr(t); t++; return t; }")
+    # (no non-broadcast channel: the SMC query forms are refused for such models whatever the query)
+    doc = X.nta("int v; const int k = 1; clock x; broadcast chan bc;", [T(params="const int[0,1] pid", decl=decl)], "P1 = T(0); system P1, T;")
+    writers = ["lw", "lg", "linc", "larr", "lchain", "lref", "lstmt"]
+    readers = ["lr", "lrchain", "lloc"]
+    forms = ["E<> {c} > 0", "A[] {c} >= 0", "{c} > 0 --> true", "sup: {c}", "E<> {c} + {c} > 0", "A[] forall (i : int[0,1]) {c} + i >= 0",
+             "Pr[<=10](<> {c} > 0)", "simulate [<=10] {{ {c} }}", "E[<=10; 5](max: {c})"]
+    items, meta = [], []
+    for proc in ("P1", "T(1)"):
+        for fname in writers + readers:
+            for form in forms:
+                items.append(form.format(c="%s.%s()" % (proc, fname)))
+                meta.append((proc, fname, "write" if fname in writers else "twin"))
+    req = {"op": "queries", "ctx": {"kind": "xml", "text": doc}, "items": items}
+    r = w.call_safe(req, timeout=120)
+    if r.get("died"):
+        engine.check_crash(part, PID, r, "process-member queries", req)
+        return part.result()
+    if r["ctx"]["errors"] or r["ctx"]["exc"]:
+        raise RuntimeError("C11 generator bug: model for process-member queries rejected: %s" % str(r["ctx"])[:300])
+    for q, (proc, fname, role), x in zip(items, meta, r["results"]):
+        part.count()
+        part.nontrivial_case("process-query:" + q)
+        rp = dict(req, items=[q])
+        acc = x.get("sexpr") is not None and not x.get("err")
+        if role == "write" and acc:
+            part.outcome("write-accepted")
+            part.violation("write-accepted:process-member-query:%s:%s" % (fname, q.split()[0]), "query `%s` is accepted although %s writes a variable" % (q, fname), rp)
+        elif role == "twin" and not acc:
+            part.outcome("twin-rejected")
+            part.violation("twin-rejected:process-member-query:%s:%s" % (fname, q.split()[0]), "query `%s` (read-only function) is rejected: %s" %
+                           (q, [e["msg"] for e in x.get("err", [])][:2]), rp)
+        else:
+            part.outcome("write-rejected" if role == "write" else "twin-accepted")
+    return part.result()
+
+
 def main():
     nforms = len(write_forms())
     rep = engine.Report(PID, "exploration",
@@ -318,12 +361,14 @@ def main():
                         "read-only twin and a local-only-writer control; the core forms additionally at %d positions inside the "
                         "context's expression (operand, call argument, array index, inline-if condition/branch, ...). Declaration order: six contexts "
                         "inside the definition of a dynamic template x its announcement before / between / after the called functions x "
-                        "{writer, call chain, reference-parameter wrapper} with read-only twins."
+                        "{writer, call chain, reference-parameter wrapper} with read-only twins. Queries that call template-local functions through "
+                        "a process or an element of a process set: 7 writers and 3 readers x 9 query forms x {P1.f(), T(1).f()}."
                         % (len(CONTEXTS) + len(QUERY_CONTEXTS), nforms, len(WRAPPERS)))
     for res in engine.pmap(run_shard, list(CONTEXTS) + list(QUERY_CONTEXTS)):
         rep.merge(res)
     rep.merge(run_shadowed(None))
     rep.merge(run_dynamic_orders(None))
+    rep.merge(run_process_queries(None))
     rep.assumptions = ["in compile-time contexts the twin reads constants only (a read of a variable is rejected there for C13's reason)",
                        "small scope: call chains up to depth 3, one representative per statement form"]
     sys.exit(rep.finish())
